@@ -33,13 +33,18 @@ GUARDS = [
     ("Cyclic", "MC_Cyclic_bug_inside.cfg", "Inside"),
     ("Cyclic", "MC_Cyclic_bug_advance.cfg", "AdvanceLaw"),
     ("Cyclic", "MC_Cyclic_bug_step.cfg", "StepLaw"),
+    ("Cyclic", "MC_Cyclic_bug_ra.cfg", "RALaw"),
     ("Spiral", "MC_Spiral_bug_rings.cfg", "Rings"),
     ("Spiral", "MC_Spiral_bug_indisk.cfg", "InDisk"),
     ("Spiral", "MC_Spiral_bug_norevisit.cfg", "NoRevisit"),
     ("Spiral", "MC_Spiral_bug_atend.cfg", "AtEnd"),
 ]
 
-INPUT_KEYS = ("f", "T", "st", "via", "b", "e", "n", "bi", "ei", "E", "s", "len", "start", "o", "d", "p", "i", "j")
+INPUT_KEYS = ("f", "T", "st", "via", "b", "e", "n", "bi", "ei", "E", "s", "len", "start", "o", "d", "p", "i", "j", "v", "w")
+
+
+# record kinds that are entirely outside the statement of C18 (observed only, see spec/RangesJudge.tla)
+OBSERVED_KINDS = ("int_iter", "enum_iter", "static_int_range")
 
 
 def build():
@@ -57,11 +62,31 @@ def inputs_of(rec):
         r.pop("e", None)
     return r
 
+PID = "C18"
+
+
+def split_why(why):
+    """(reasons inside the statement of the property, observed-only reasons without the obs: prefix)"""
+    return [w for w in why if not w.startswith("obs:")], [w[4:] for w in why if w.startswith("obs:")]
+
+
+def observe(ctx, op, obs, line):
+    """a disagreement outside the statement of the property: recorded in the evidence
+    (coverage.observations) and in the log, never a rejected event"""
+    o = ctx.extra.setdefault("observations", {})
+    key = "%s:%s:%s" % (PID, op, "+".join(sorted(obs)))
+    e = o.setdefault(key, {"count": 0, "example": line[:700]})
+    e["count"] += 1
+    if e["count"] == 1:
+        vlib.log("OBSERVED (outside the statement of %s, not a violation): %s" % (PID, key))
+
 
 def judge_light(ctx, module, cfg, trace_path, nchunks=48, par=8, xmx="1200m", timeout=1500):
     """vlib.judge_trace with small JVM heaps and bounded parallelism (the machine is shared): the
     record file is split on line boundaries, every chunk is judged by its own single-worker TLC.
     Returns the rejected records {l (global 1-based line), op, why[]}."""
+    nlines = sum(1 for _ in open(trace_path))
+    nchunks = max(2, min(nchunks, nlines // 3000))
     chunks = vlib.split_file(trace_path, nchunks)
 
     def one(ch):
@@ -77,7 +102,19 @@ def judge_light(ctx, module, cfg, trace_path, nchunks=48, par=8, xmx="1200m", ti
             b["l"] = b["l"] + first
             bad.append(b)
         if vd["nbad"] > len(vd["bad"]):
-            bad.append({"l": bad[-1]["l"], "op": bad[-1]["op"], "why": ["more-rejected-records-than-listed"]})
+            # RecordLoop lists at most 300 rejected records per run: judge this chunk again in pieces
+            # of 250 records so that nothing (in particular nothing in scope) is dropped
+            ls = open(p).read().splitlines()
+            bad, gen = [], r.generated
+            for k in range(0, len(ls), 250):
+                q = "%s.sub%d" % (p, k)
+                with open(q, "w") as fh:
+                    fh.write("\n".join(ls[k:k + 250]) + "\n")
+                b2, g2 = one((q, first + k))
+                os.unlink(q)
+                bad += b2
+                gen += g2
+            return bad, gen
         return bad, r.generated
     res = vlib.parallel(one, chunks, workers=par)
     bad = []
@@ -111,14 +148,26 @@ def judge_file(ctx, path, what, rc, out):
                 payload["record"] = inputs_of(json.loads(re.sub(r",\s*$", "", tail) + "}"))
             except ValueError:
                 pass
-        ctx.reject("C18:%s:%s" % (op, kind), "%s during %s (%s): %s" % (kind, op, what, san.group(1) if san else out[-300:]), payload)
+        if op in OBSERVED_KINDS:
+            observe(ctx, op, [kind], tail or "")
+        else:
+            ctx.reject("C18:%s:%s" % (op, kind), "%s during %s (%s): %s" % (kind, op, what, san.group(1) if san else out[-300:]), payload)
         with open(path, "w") as f:
             f.write("\n".join(lines) + ("\n" if lines else ""))
     if not lines:
         return lines
     bad = judge_light(ctx, JUDGE, JUDGE_CFG, path)
     ctx.evaluations += len(lines)
+    if not hasattr(ctx, "unexplained"):
+        ctx.unexplained = set()
     for b in bad:
+        ctx.unexplained.add(lines[b["l"] - 1])
+        ins, obs = split_why(b["why"])
+        if obs:
+            observe(ctx, b["op"], obs, lines[b["l"] - 1])
+        if not ins:
+            continue
+        b = dict(b, why=ins)
         if "HARNESS-PRECONDITION" in b["why"]:
             raise vlib.Infra("harness record outside its own input space at line %d of %s: %s" % (b["l"], path, lines[b["l"] - 1][:300]))
         rec = json.loads(lines[b["l"] - 1])
@@ -151,6 +200,14 @@ def count_classes(ctx, lines):
             n, ln = r["n"], r["len"]
             ctx.count_class((f, ln, r["start"], "0" if n == 0 else ("+" if n > 0 else "-"),
                              "lt" if abs(n) < ln else ("eq" if abs(n) == ln else ("mult" if abs(n) % ln == 0 else "gt"))))
+        elif f == "cyclic_ra":
+            n, ln = r["n"], r["len"]
+            ctx.count_class((f, ln, "0" if n == 0 else ("+" if n > 0 else "-"), "lt" if abs(n) < ln else ("mult" if abs(n) % ln == 0 else "gt"),
+                             (r["i"] > r["j"]) - (r["i"] < r["j"]), r["i"] + n >= ln, r["i"] + n < 0))
+        elif f == "int_iter":
+            ctx.count_class((f, r["T"], r["st"], r["v"] == r["w"], r["v"] < 0))
+        elif f == "enum_iter":
+            ctx.count_class((f, r["E"], r["v"] == r["w"], r["v"] + 1 == r["n"]))
         elif f == "spiral":
             ctx.count_class((f, r["T"], r["d"], tuple(r["o"])))
         elif f in ("moore", "neumann"):
@@ -164,31 +221,35 @@ def count_classes(ctx, lines):
 def corruptions(recs):
     out = []
 
+    cur = [None]
+    cnt = {}
+    PER_KEY = 4    # several candidate records per kind: one accepted corruption must not fail the guard
+
     def mut(r, fn, why):
         r = copy.deepcopy(r)
         fn(r)
-        out.append((r, why))
+        out.append((r, why, cur[0]))
 
-    done = set()
-    for r in recs:
+    def _one(r):
         f = r["f"]
         key = f + r.get("T", "") if f == "int_range" else f
-        if key in done:
-            continue
+        if cnt.get(key, 0) >= PER_KEY:
+            return
+        cur[0] = key
         if f in ("int_range", "int_range_count", "int_range_rsize", "enum_range", "iter_range", "static_int_range") and len(r["seq"]) >= 3:
             mut(r, lambda x: x["seq"].pop(), "sequence")
             mut(r, lambda x: x["seq"].__setitem__(1, x["seq"][1] + 1), "sequence")
             mut(r, lambda x: x["seq"].append(x["seq"][-1] + 1), "sequence")
             if "size" in r:
                 mut(r, lambda x: x.__setitem__("size", x["size"] - 1), "size")
-            if "rsize" in r:
+            if r.get("rsize", -1) >= 0:
                 mut(r, lambda x: x.__setitem__("rsize", x["rsize"] + 1), "range-size")
-            done.add(key)
+            cnt[key] = cnt.get(key, 0) + 1
         elif f == "int_range_wide" and len(r["seq"]) >= 2:
             mut(r, lambda x: x["seq"].pop(), "sequence")
             mut(r, lambda x: x["seq"].__setitem__(0, x["seq"][1]), "sequence")
             mut(r, lambda x: x.__setitem__("size", x["size"] + 1), "size")
-            done.add(key)
+            cnt[key] = cnt.get(key, 0) + 1
         elif f == "cyclic" and r["len"] >= 3 and abs(r["n"]) >= 4:
             ln = r["len"]
             mut(r, lambda x: x.__setitem__("adv", (x["adv"] + 1) % ln), "advance")
@@ -197,39 +258,93 @@ def corruptions(recs):
             mut(r, lambda x: x.__setitem__("plus", (x["plus"] + 1) % ln), "operator-plus")
             mut(r, lambda x: x.__setitem__("sub", (x["sub"] + 1) % ln), "operator-minus")
             mut(r, lambda x: x.__setitem__("advv", x["advv"] + 1), "dereference")
-            done.add(key)
+            cnt[key] = cnt.get(key, 0) + 1
+        elif f == "cyclic_ra" and r["len"] >= 3 and r["i"] != r["j"] and r["n"] not in (0,):
+            ln = r["len"]
+            mut(r, lambda x: x.__setitem__("apn", (x["apn"] + 1) % ln), "operator-plus")
+            mut(r, lambda x: x.__setitem__("back", (x["back"] + 1) % ln), "plus-then-minus")
+            mut(r, lambda x: x.__setitem__("reach", (x["reach"] + 1) % ln), "advance-by-difference")
+            mut(r, lambda x: x.__setitem__("sub", x["sub"] + 1), "subscript")
+            mut(r, lambda x: x.__setitem__("lt", not x["lt"]), "ordering-vs-difference")
+            mut(r, lambda x: x.__setitem__("eq", not x["eq"]), "equality")
+            mut(r, lambda x: x.__setitem__("postold", (x["postold"] + 1) % ln), "increment-return-values")
+            mut(r, lambda x: x.__setitem__("post", (x["post"] + 1) % ln), "increment")
+            mut(r, lambda x: x.__setitem__("dec", (x["dec"] + 1) % ln), "decrement")
+            mut(r, lambda x: x.__setitem__("swa", x["swb"]), "swap")
+            mut(r, lambda x: x.__setitem__("apn", x["apn"] + ln), "leaves-boundary")
+            cnt[key] = cnt.get(key, 0) + 1
+        elif f == "int_iter" and r["v"] != r["w"]:
+            mut(r, lambda x: x.__setitem__("deref", x["deref"] + 1), "dereference")
+            mut(r, lambda x: x.__setitem__("postold", x["postold"] + 1), "increment")
+            mut(r, lambda x: x.__setitem__("preret", x["preret"] - 1), "increment")
+            mut(r, lambda x: x.__setitem__("ne", False), "equality")
+            mut(r, lambda x: x.__setitem__("swa", x["swb"]), "swap")
+            cnt[key] = cnt.get(key, 0) + 1
+        elif f == "enum_iter" and r["v"] != r["w"] and r["v"] + 1 < r["n"]:
+            mut(r, lambda x: x.__setitem__("postold", x["postold"] + 1), "dereference")
+            mut(r, lambda x: x.__setitem__("pre", x["pre"] + 1), "increment")
+            mut(r, lambda x: x.__setitem__("eq", True), "equality")
+            cnt[key] = cnt.get(key, 0) + 1
         elif f == "spiral" and r["d"] >= 2:
             mut(r, lambda x: x["vis"].pop(), "not-the-manhattan-disk")
             mut(r, lambda x: x["vis"].__setitem__(3, x["vis"][2]), "position-visited-twice")
             mut(r, lambda x: x["vis"].reverse(), "distance-decreases")
-            done.add(key)
+            mut(r, lambda x: x.__setitem__("rsize", x["rsize"] + 1), "range-size")
+            cnt[key] = cnt.get(key, 0) + 1
         elif f in ("moore", "neumann"):
             mut(r, lambda x: x["r"].__setitem__(0, x["p"]), f + "-neighbours")
             mut(r, lambda x: x["r"].__setitem__(1, x["r"][0]), f + "-neighbours")
-            done.add(key)
+            cnt[key] = cnt.get(key, 0) + 1
+    for r in recs:
+        try:
+            _one(r)
+        except (IndexError, KeyError, ValueError, StopIteration):
+            pass    # this record is not a usable candidate
     return out
 
 
+def check_corruptions(ctx, cor, bad):
+    """Per (kind of record, expected reason): at least one of the corrupted candidate records must be
+    rejected by the judge with that reason.  A single candidate on which the corruption happens to leave
+    a value the specification also accepts does not fail the guard; only a kind/reason for which NO
+    candidate is rejected does (exit 2)."""
+    groups = {}
+    for i, (rec, why, key) in enumerate(cor):
+        got = bad.get(i + 1, [])
+        ok = why in got or "obs:" + why in got
+        g = groups.setdefault((str(key), why), [0, 0, rec, got])
+        g[0] += 1
+        g[1] += 1 if ok else 0
+    failed = [(k, g) for k, g in groups.items() if g[1] == 0]
+    if failed:
+        k, g = failed[0]
+        raise vlib.Infra("sensitivity guard: none of the %d corrupted %s records (expected reason %s) was rejected, e.g. judged %s: %s" % (
+            g[0], k[0], k[1], g[3], json.dumps(g[2])[:300]))
+    rejected = sum(g[1] for g in groups.values())
+    ctx.extra["judge_sensitivity"] = {"corrupted_records": len(cor), "rejected_with_expected_reason": rejected,
+                                      "groups": len(groups), "every_group_rejected": True, "all_rejected": rejected == len(cor)}
+
+
 def sensitivity_guard(ctx, lines):
-    recs = [json.loads(l) for l in lines[::97]] + [json.loads(l) for l in lines if '"f":"int_range"' not in l]
+    """corrupt copies of records the judge currently explains completely (records with any reason - a
+    violation or an observation - are no candidates); a kind whose records are all unexplained is skipped"""
+    unexpl = getattr(ctx, "unexplained", set())
+    cand = [l for l in lines[::97] + [l for l in lines if '"f":"int_range"' not in l] if l not in unexpl]
+    recs = [json.loads(l) for l in cand]
     cor = corruptions(recs)
     kinds = set(c[0]["f"] for c in cor)
+    touched = set(json.loads(l)["f"] for l in unexpl)
     need = {"int_range", "int_range_count", "int_range_rsize", "int_range_wide", "enum_range", "cyclic", "spiral", "moore", "neumann",
-            "iter_range", "static_int_range"}
-    if kinds != need:
-        raise vlib.Infra("sensitivity guard: no corruptible record for %s" % sorted(need - kinds))
+            "iter_range", "static_int_range", "cyclic_ra", "int_iter", "enum_iter"}
+    missing = need - kinds - touched
+    if missing:
+        raise vlib.Infra("sensitivity guard: no corruptible record for %s" % sorted(missing))
     p = os.path.join(ctx.workdir, "corrupted.ndjson")
     vlib.write_ndjson(p, [c[0] for c in cor])
-    r = vlib.tlc(JUDGE, JUDGE_CFG, workers=1, env={"TRACE": p}, tag="RangesJudge_sens", xmx="1g")
-    v = vlib._verdict_lines(r.out).get("VERDICT")
-    if not v:
-        raise vlib.Infra("sensitivity guard: no verdict\n" + r.out[-2000:])
-    bad = {b["l"]: b["why"] for b in v[-1]["bad"]}
-    for i, (rec, why) in enumerate(cor):
-        if why not in bad.get(i + 1, []):
-            raise vlib.Infra("sensitivity guard: corrupted %s record (expected reason %s) was judged %s: %s" % (
-                rec["f"], why, bad.get(i + 1), json.dumps(rec)[:300]))
-    ctx.extra["judge_sensitivity"] = {"corrupted_records": len(cor), "all_rejected": True}
+    # (RecordLoop lists at most 300 rejected records per run; judge_light re-judges in pieces of 250)
+    bad = {b["l"]: b["why"] for b in judge_light(ctx, JUDGE, JUDGE_CFG, p, nchunks=4, par=4)}
+    check_corruptions(ctx, cor, bad)
+    ctx.extra["judge_sensitivity"]["kinds_skipped_because_unexplained"] = sorted((need - kinds) & touched)
 
 
 def run(ctx):
